@@ -222,7 +222,7 @@ func init() {
 		Level: "exploration",
 		Rule: "one schedule per case on a concurrent-mode sorter (chunk 3..8, 1..4 full chunks, last chunk 0, 1 or c-1, unique values): (i) enumerated holds - each background writer parked at each of {recv, register, encode#1, encode#last, sync, return} until the caller reaches each of " +
 			"{hand-off of the next chunk, finalise.enter, finalise.lastwrite, finalise.seek, first Pull}, and inverted holds in which the caller is parked at {next hand-off, finalise.enter, finalise.lastwrite} until the writer has reached {register, encode#last, return} (all released after a bounded wait so the harness cannot create a deadlock); (ii) seeded random sleeps of 0-2 ms at every hook; (iii) hooks silent with GOMAXPROCS in {1,2,16}. " +
-			"Oracle: Finalise returned => every value pulled exactly once in order; race detector, panics and runtime deadlock detection through the child. Non-trivial = >=1 background writer; distinct = hash of the (goroutine role, step) event order",
+			"Oracle: Finalise returned => every value pulled exactly once in order, and Finalise never reaches its read-back while a background writer is still between write.recv and write.return; race detector, panics and runtime deadlock detection through the child. Non-trivial = >=1 background writer; distinct = hash of the (goroutine role, step) event order",
 		Batches: func(t string) int {
 			if t == "thorough" {
 				return 16
@@ -355,11 +355,16 @@ func c12Run(r *obs.Run, s c12Sched) {
 	if ctl.timedOut {
 		r.Count("holds_released_by_bounded_wait", 1)
 	}
-	if ctl.overtook {
-		r.Count("finalise_overtook_live_writer", 1)
-	}
+	overtook := ctl.overtook
 	events := append([]string(nil), ctl.events...)
 	ctl.mu.Unlock()
+	if overtook {
+		// "Finalise returns only once every pushed value is safely in the sorter": it went on to read the run files
+		// back (or returned) while a background writer had not yet finished with its run
+		w["events"] = events
+		fail("finalise-overtook-writer", "Finalise reached its read-back (finalise.seek / finalise.done) while a background writer was still between write.recv and write.return")
+		return
+	}
 	r.Count("schedules_run", 1)
 	switch {
 	case s.Hold != nil:
